@@ -17,7 +17,9 @@ import (
 	cidlink "github.com/ipld/go-ipld-prime/linking/cid"
 	"github.com/ipni/go-libipni/dagsync/ipnisync"
 	"github.com/ipni/go-libipni/ingest/schema"
+	"github.com/libp2p/go-libp2p"
 	"github.com/libp2p/go-libp2p/core/crypto"
+	"github.com/libp2p/go-libp2p/core/host"
 	"github.com/libp2p/go-libp2p/core/peer"
 	"github.com/multiformats/go-multiaddr"
 	"github.com/multiformats/go-multihash"
@@ -112,6 +114,7 @@ type Pub struct {
 	Pub   *ipnisync.Publisher
 	Addrs []multiaddr.Multiaddr
 	Plain bool // reached in plain-HTTP mode (own http server) rather than libp2p-HTTP discovery
+	Host  host.Host // libp2p stream host of the publisher (stream transport only)
 
 	mu     sync.Mutex
 	served []int    // model block numbers served, in order
@@ -170,6 +173,35 @@ func NewPub(ch *Chain, name string, plain bool) (*Pub, error) {
 	return p, nil
 }
 
+// NewPubStream starts a publisher that serves HTTP over libp2p streams only (no HTTP listener): syncs reach it through
+// a libp2p host of their own.
+func NewPubStream(ch *Chain, name string) (*Pub, error) {
+	p := &Pub{Chain: ch, Key: ids.Key(name), ID: ids.Peer(name)}
+	ls := ch.Store.LinkSystem()
+	inner := ls.StorageReadOpener
+	ls.StorageReadOpener = func(lc ipld.LinkContext, l ipld.Link) (io.Reader, error) {
+		r, err := inner(lc, l)
+		if err == nil {
+			p.mu.Lock()
+			p.served = append(p.served, ch.Index[l.(cidlink.Link).Cid])
+			p.mu.Unlock()
+		}
+		return r, err
+	}
+	h, err := libp2p.New(libp2p.Identity(p.Key), libp2p.ListenAddrStrings("/ip4/127.0.0.1/tcp/0"))
+	if err != nil {
+		return nil, err
+	}
+	p.Host = h
+	p.Pub, err = ipnisync.NewPublisher(ls, p.Key, ipnisync.WithStreamHost(h))
+	if err != nil {
+		h.Close()
+		return nil, err
+	}
+	p.Addrs = h.Addrs()
+	return p, nil
+}
+
 func (p *Pub) AddrInfo() peer.AddrInfo { return peer.AddrInfo{ID: p.ID, Addrs: p.Addrs} }
 
 // Reset clears the logs and sets the root to block n (0 = no root).
@@ -199,4 +231,7 @@ func (p *Pub) Close() {
 		p.srv.Close()
 	}
 	p.Pub.Close()
+	if p.Host != nil {
+		p.Host.Close()
+	}
 }
